@@ -149,7 +149,7 @@ func c12Host(i int) (string, string) {
 // verif:bounds 2 clusters (A with 2 host names, B), unknown host; k = 2 requests (quick) / 3 (thorough); user names 1 symbolic byte; answers, endpoint readiness and cache expiry symbolic
 func HarnessC12Authorization() {
 	ghostC12ReviewsA, ghostC12ReviewsB = 0, 0
-	p := &c12Provider{a: &clusters.ClusterInfo{Cluster: "a"}, b: &clusters.ClusterInfo{Cluster: "b"}}
+	p := &c12Provider{a: c12ProviderCluster("a"), b: c12ProviderCluster("b")}
 	az := NewMultiClusterSubjectAccessReviewAuthorizer(p, time.Minute, time.Minute)
 	k := vbound(2, 3)
 	for i := 0; i < k; i++ {
@@ -177,4 +177,12 @@ func HarnessC12Authorization() {
 		vassert(reason == "answered-by-"+cluster, "C12/decision-from-another-cluster")
 	}
 	vreach("end")
+}
+
+// natively the authenticator/authorizer starts a goroutine waiting on the cluster's context: give it a real one there
+func c12ProviderCluster(name string) *clusters.ClusterInfo {
+	if vnative() {
+		return clusters.NewEmptyClusterInfo(name, nil, nil, "", nil)
+	}
+	return &clusters.ClusterInfo{Cluster: name}
 }
